@@ -71,3 +71,38 @@ Section Afssh.
   Definition afssh_direction (delPs : list mat) (source target : nat) : list T :=
     map (fun M => cre (csub O (mget O M source source) (mget O M target target))) delPs.
 End Afssh.
+
+(* ---- collapse: gamma_collapse (139-170) and the collapse loop of surface_hopping (172-208) ---- *)
+Section Collapse.
+  Context {T : Type} (O : Ops T).
+  Local Notation "x * y" := (omul O x y).
+  Local Notation "x - y" := (osub O x y).
+  (* np.sign *)
+  Definition osign (x : T) : T := if oltb O x (o0 O) then oopp O (o1 O) else if oltb O (o0 O) x then o1 O else o0 O.
+  (* gamma_collapse (afssh.py 139-170).  dR, dP : per dimension x the real parts of the diagonal of delR[x], delP[x]
+     (lists over states); F : per state the force vector (diagonal of the force matrix).  k = active state. *)
+  Definition gamma_collapse (n : nat) (dR dP : list (list T)) (F : list (list T)) (k : nat) (dt : T) : list T :=
+    tabulate n (fun i =>
+      if Nat.eqb i k then ohalf O * o0 O * dt else
+      let terms := map (fun x =>
+          let ddR := vget O (nth x dR []) k - vget O (nth x dR []) i in
+          let ddP0 := vget O (nth x dP []) k - vget O (nth x dP []) i in
+          let ddP := if oleb O (oabs O ddP0) (o0 O) then odec O 1 10 else ddP0 in
+          let ddF := vget O (nth k F []) x - vget O (nth i F []) x in
+          ddF * (ddR * osign (odiv O ddR ddP))) (seq 0 (length dR)) in
+      (ohalf O * vsum O terms) * dt).
+  (* the collapse loop of surface_hopping: one uniform per non-active state, in state order; collapse when some e_i < gamma_i *)
+  Fixpoint collapse_scan (gam : list T) (k i : nat) (us : list T) : bool * list T :=
+    match gam with
+    | [] => (false, us)
+    | g :: rest =>
+        if Nat.eqb i k then collapse_scan rest k (S i) us
+        else match us with
+             | [] => (false, [])
+             | e :: us' => let '(c, r) := collapse_scan rest k (S i) us' in (oltb O e g || c, r)
+             end
+    end.
+  (* what the collapse does to (rho, delR[x], delP[x]) *)
+  Definition collapse_apply (n k : nat) (collapsed : bool) (rho : mat (T:=T)) (dRs dPs : list (mat (T:=T))) :=
+    if collapsed then (collapse_rho O n k, map (fun _ => zero_mat O n) dRs, map (fun _ => zero_mat O n) dPs) else (rho, dRs, dPs).
+End Collapse.
